@@ -59,11 +59,30 @@ PDEFS = [
     [FP(9, ["state", "index", "win"]), ST, FP(5)],                          # source used only under (stale) state
 ]
 FILE_PDEFS = [i for i, d in enumerate(PDEFS) if any(x["type"] == "file_placeholders" for x in d)]
+# pipelines that read the pipeline variables (value_placeholders resolves %name% from pipeline.vars of the item's owner)
+VP = {"type": "value_placeholders", "id": "vp"}
+VAR_PDEFS_START = len(PDEFS)
+PDEFS += [
+    {"items": [VP], "vars": {}},                                              # only backend_* / backend / output_format exist
+    {"items": [ST, VP, FM], "vars": {"uv": ["a", "b"], "idx": "u"}},
+    {"items": [VP], "vars": {"uv": "c", "backend_index": "fromuser", "cv": "u"}},   # user vars shadowed by / shadowing others
+    {"items": [FP(0, ["product", 2]), VP], "vars": {"hosts": ["h1", "h2*"]}},
+    {"items": [VP, RF], "vars": {"x": "xv"}},
+]
+VAR_PDEFS = list(range(VAR_PDEFS_START, len(PDEFS)))
+def pd_items(pd): return pd["items"] if isinstance(pd, dict) else pd
+def pd_vars(pd): return pd.get("vars", {}) if isinstance(pd, dict) else {}
+OPTIONS = [{}, {"index": "prod"}, {"index": "dev*", "ns": "n1"}, {"ns": "n2"}]
 CLASSES = [
     {"ne": False, "bk": [], "fmt": {}},
     {"ne": True, "bk": [], "fmt": {}},
     {"ne": False, "bk": [ST, FA], "fmt": {"1": [FC]}},      # class-level pipelines like the shipped test backend
     {"ne": True, "bk": [], "fmt": {"1": [FC], "2": [SW]}},
+    # class-level pipelines with vars: without items (nothing to re-own, yet the vars dict exists once per class) ...
+    {"ne": False, "bk": [], "fmt": {}, "bkvars": {"cv": ["c1", "c2"], "uv": "fromclass"}, "fmtvars": {"2": {"fv": "f2"}}},
+    # ... with a class-level reader, and with a class-level pipeline that has no vars at all
+    {"ne": True, "bk": [VP], "fmt": {}, "bkvars": {}, "fmtvars": {}},
+    {"ne": False, "bk": [VP], "fmt": {"1": [FC]}, "bkvars": {"cv": "c3"}, "fmtvars": {"1": {"cv": "fmt1"}}},
 ]
 FMTS = [0, 1, 2]
 ERRTAG = {"SigmaValueError": 1, "SigmaPlaceholderError": 2, "SigmaTypeError": 3, "SigmaConditionError": 4,
@@ -95,7 +114,8 @@ COND_POOL = [I("sel"), ["not", I("sel")], ["and", [I("sel"), I("flt")]], ["or", 
 BROKEN_CONDS = ["sel and", "sel flt", "sel | count() > 1"]   # ParseException / deprecated pipe syntax -> SigmaConditionError
 
 FIELDS = ["f", "g", "h", "fieldA", "fieldC", "k"]
-VALUES = [("num", "1"), ("num", "2"), ("str", "a"), ("str", "b"), ("star", "a"), ("sw", "b"), ("ph", "x"), ("ph", "hosts"), ("re", "ab")]
+VALUES = [("num", "1"), ("num", "2"), ("str", "a"), ("str", "b"), ("star", "a"), ("sw", "b"), ("ph", "x"), ("ph", "hosts"), ("re", "ab"),
+          ("ph", "backend_index"), ("ph", "uv"), ("ph", "cv"), ("ph", "backend"), ("ph", "output_format"), ("ph", "backend_ns")]
 
 BAD = {
     "type": ("title: b\nlogsource:\n  product: windows\ndetection:\n  sel:\n    f|startswith: 1\n  condition: sel\n", 3, [1]),
@@ -143,7 +163,11 @@ R_C = {"bad": None, "raw": None, "product": 1, "dets": [["sel", [["fieldC", "num
 R_HOSTS = {"bad": None, "raw": None, "product": 1, "dets": [["sel", [["f", "ph", "hosts"], ["g", "num", "1"]]]], "conds": ["sel"]}
 R_HOSTS_L = {"bad": None, "raw": None, "product": 2, "dets": [["sel", [["f", "ph", "hosts"]]], ["flt", [["h", "ph", "x"], ["g", "str", "a"]]]], "conds": ["sel and not flt", "flt"]}
 R_RE = {"bad": None, "raw": None, "product": 1, "dets": [["sel", [["f", "re", "ab"]]], ["flt", [["g", "str", "a"]]]], "conds": ["flt and not sel"]}   # backend error inside a negated leaf (not-equals classes)
-FIXED_RULES = [R_WIN, R_LIN, R_PH, R_NEG, R_UNDEF, R_C, R_HOSTS, R_HOSTS_L, R_RE]
+R_IDX = {"bad": None, "raw": None, "product": 1, "dets": [["sel", [["idx", "ph", "backend_index"], ["g", "num", "1"]]]], "conds": ["sel"]}
+R_VARS = {"bad": None, "raw": None, "product": 1, "dets": [["sel", [["f", "ph", "uv"]]], ["flt", [["h", "ph", "cv"], ["k", "ph", "output_format"]]]], "conds": ["sel", "not flt"]}
+R_BK = {"bad": None, "raw": None, "product": 2, "dets": [["sel", [["f", "ph", "backend"], ["g", "ph", "backend_ns"]]]], "conds": ["not sel"]}
+VAR_RULES = [R_IDX, R_VARS, R_BK]
+FIXED_RULES = [R_WIN, R_LIN, R_PH, R_NEG, R_UNDEF, R_C, R_HOSTS, R_HOSTS_L, R_RE, R_IDX, R_VARS, R_BK]
 
 FILTERS = [
     {"product": 1, "dets": [["sel", [["g", "num", "1"]]]], "cond": "not sel"},
@@ -191,7 +215,7 @@ def rand_op(rng, nb, rule_fn):
     if k == "load":
         return ["load", bad_rule(rng.choice(list(BAD))) if rng.random() < 0.4 else rule_fn()]
     if k == "new":
-        return ["new", rng.randrange(len(CLASSES)), rng.choice([None, 0, 0, 1, 2]), rng.random() < 0.3]
+        return ["new", rng.randrange(len(CLASSES)), rng.choice([None, 0, 0, 1, 2]), rng.random() < 0.3, rng.choice(OPTIONS + [{}, {}])]
     b = rng.randrange(nb)
     fmt = (b + 2) % 3 if rng.random() < 0.85 else rng.choice([0, 1, 2])
     if k == "init": return ["init", b, fmt]
@@ -209,7 +233,7 @@ def rand_history(rng, n, sharing):
         if op[0] == "new":
             if nb >= 3: continue
             if not sharing:
-                op[1] = rng.choice([0, 1])
+                op[1] = rng.choice([0, 1, 4])
                 free = [u for u in (0, 1, 2) if u not in used_users]
                 op[2] = rng.choice(free) if free and rng.random() < 0.8 else None
                 if op[2] is not None: used_users.add(op[2])
@@ -254,6 +278,22 @@ def gen_history(tier, rng):
             out.append(mk_case([d, 1, 0], [["new", cls, 0, True], ["new", cls, 0, False], ["coll", 0, [R_HOSTS, R_WIN, R_HOSTS_L], 2], ["rule", 1, R_HOSTS, 2]]))
             out.append(mk_case([d, 1, 0], [["new", cls, 0, True], ["coll", 0, [R_HOSTS, R_HOSTS, R_HOSTS_L], 0]]))
             out.append(mk_case([d, 1, 0], [["new", cls, 0, False], ["load", R_HOSTS], ["init", 0, 2], ["coll", 0, [R_WIN, R_HOSTS], 2], ["coll", 0, [R_HOSTS_L, R_HOSTS], 2]]))
+    # backend options: backend with options then a fresh backend without (and the reverse), same class, with class-level
+    # pipelines with / without vars and items, own or shared user pipeline objects that read the variables
+    optcases = []
+    for cls in (0, 1, 4, 5, 6):
+        for d in VAR_PDEFS[:3]:
+            for oa, ob in ((OPTIONS[1], {}), ({}, OPTIONS[1]), (OPTIONS[2], OPTIONS[3]), (OPTIONS[1], OPTIONS[2])):
+                for ua, ub in ((0, 1), (0, 0), (None, 0), (0, None)):
+                    for r1 in (R_IDX, R_BK):
+                        for mode in range(3):
+                            ops = [["new", cls, ua, False, oa], ["rule", 0, r1, 2], ["new", cls, ub, mode == 2, ob]]
+                            probe_r = rng.choice(VAR_RULES)
+                            if mode == 0: ops.append(["rule", 1, probe_r, 2])
+                            elif mode == 1: ops += [["init", 1, 2], ["rule", 0, probe_r, 2]]
+                            else: ops.append(["coll", 1, [R_IDX, probe_r, R_WIN], 2])
+                            optcases.append(mk_case([d, d, 0], ops))
+    out += optcases if tier != "quick" else optcases[:12] + rng.sample(optcases, 260)
     setups = [([1, 2, 0], [["new", 1, 0, False], ["new", 1, 0, True]]),      # shared user pipeline object, not-equals class
               ([2, 3, 0], [["new", 0, 0, False], ["new", 1, 1, True]]),      # nothing shared
               ([1, 1, 0], [["new", 2, None, False], ["new", 2, 1, False]])]  # class-level pipelines shared
@@ -275,6 +315,7 @@ def gen_history(tier, rng):
         n = rng.randint(2, 8)
         users = [rng.randrange(len(PDEFS)) for _ in range(3)]
         if i % 4 == 1: users[0] = rng.choice(FILE_PDEFS)
+        if i % 4 == 2: users[0] = rng.choice(VAR_PDEFS)
         out.append(mk_case(users, rand_history(rng, n, sharing=(i % 3 != 0))))
     return [c for c in out if valid(c["ops"])]
 
@@ -288,6 +329,7 @@ def c_item(d):
     if d["type"] == "set_state": tr = f"(TSetState {cstr(d['key'])} {cstr(d['val'])})"
     elif d["type"] == "field_name_mapping": tr = "(TFieldMap " + clist(f"({cstr(a)}, {cstr(b)})" for a, b in d["mapping"]) + ")"
     elif d["type"] == "file_placeholders": tr = f"(TFile {d['src']})"
+    elif d["type"] == "value_placeholders": tr = "TVars"
     else: tr = "TFail"
     return f"(Build_item {iid} {cond} {tr})"
 
@@ -342,7 +384,9 @@ def parse_cond(s):
 def c_op(op):
     k = op[0]
     if k == "load": return f"(OLoad {c_rule(op[1])})"
-    if k == "new": return f"(ONew {op[1]} {copt(str(op[2]) if op[2] is not None else None)} {cbool(op[3])})"
+    if k == "new":
+        opts = clist(f"({cstr(a)}, {cstr(b)})" for a, b in (op[4] if len(op) > 4 else {}).items())
+        return f"(ONew {op[1]} {copt(str(op[2]) if op[2] is not None else None)} {cbool(op[3])} {opts})"
     if k == "init": return f"(OInit {cnat(op[1])} {op[2]})"
     if k == "rule": return f"(OConvRule {cnat(op[1])} {c_rule(op[2])} {op[3]})"
     return f"(OConvColl {cnat(op[1])} {clist(c_rule(r) for r in op[2])} {op[3]})"
@@ -381,13 +425,18 @@ def history_to_coq(c, r):
         for k in rule["conds"]:
             if k not in conds: conds.append(k)
     parses = clist(f"({cstr(k)}, {copt(c_tree(parse_cond(k)) if parse_cond(k) is not None else None)})" for k in conds)
-    users = clist(clist(c_item(d) for d in c["pdefs"][u]) for u in c["users"])
+    users = clist(clist(c_item(d) for d in pd_items(c["pdefs"][u])) for u in c["users"])
+    def c_vars(v):
+        return clist(f"({cstr(k)}, {clist(cstr(x) for x in (x if isinstance(x, list) else [x]))})" for k, x in v.items())
     env = ("(mk_env " + clist(cbool(k["ne"]) for k in c["classes"]) + " " +
            clist(clist(c_item(d) for d in k["bk"]) for k in c["classes"]) + " " +
            clist(clist(f"({f}, {clist(c_item(d) for d in its)})" for f, its in k["fmt"].items()) for k in c["classes"]) + " " +
            users + " " + parses + " " +
            clist(f"(Ok {clist(cstr(v) for v in x['expect'])})" if isinstance(x["expect"], list) else f"(SigmaErr {ERRTAG[x['expect']]})" for x in SOURCES) + " " +
-           (clist(f"(SUser {o}, {cnat(k)})" for o, u in enumerate(c["users"]) for k, d in enumerate(c["pdefs"][u]) if d["type"] == "file_placeholders") or "(@nil iid)") + ")")
+           clist(f"(SUser {o}, {cnat(k)})" for o, u in enumerate(c["users"]) for k, d in enumerate(pd_items(c["pdefs"][u])) if d["type"] == "file_placeholders") + " " +
+           clist(c_vars(k.get("bkvars", {})) for k in c["classes"]) + " " +
+           clist(clist(f"({f}, {c_vars(v)})" for f, v in k.get("fmtvars", {}).items()) for k in c["classes"]) + " " +
+           clist(c_vars(pd_vars(c["pdefs"][u])) for u in c["users"]) + ")")
     ops = clist(c_op(o) for o in mops)
     iouts = clist(c_iout(o) for o in r["outs"])
     fresh = f"(Some {c_iout(r['fresh'])})" if r["fresh"] is not None else "(@None iout)"
@@ -400,7 +449,9 @@ def sources(c, cls, user, fmt):
     k = c["classes"][cls]
     if k["bk"]: s.add(("bk", cls))
     if k["fmt"].get(str(fmt)): s.add(("fmt", cls, fmt))
-    if user is not None and c["pdefs"][c["users"][user]]: s.add(("user", user))
+    if user is not None:
+        pd = c["pdefs"][c["users"][user]]
+        if pd_items(pd) or (isinstance(pd, dict) and (pd.get("post") or pd.get("fin"))): s.add(("user", user))
     return s
 
 def classify(c):
@@ -441,6 +492,56 @@ def mutate_history(c, rng):
             out.append(dict(c, ops=ops[:i] + [["rule", 0, r, 2]] + ops[i:]))
     return [x for x in out if valid(x["ops"])]
 
+# pipelines whose query postprocessing items / finalizers read pipeline.vars and pipeline.state through their owner link
+# (not modelled in Coq: the specification - same result as in a fresh setup - is evaluated on the implementation alone)
+READER_PDEFS = [
+    {"items": [ST], "vars": {"uv": "u1"},
+     "post": [{"type": "simple_template", "id": "pst", "template": "{query} /* idx={pipeline.vars[backend_index]} st={pipeline.state} */"}]},
+    {"items": [], "vars": {"backend_index": "fromuser"},
+     "post": [{"type": "template", "id": "pjt", "template": "{{ query }} | ix={{ pipeline.vars.backend_index }} uv={{ pipeline.vars.uv }} be={{ pipeline.vars.backend }} of={{ pipeline.vars.output_format }}"}]},
+    {"items": [VP], "vars": {},
+     "post": [{"type": "template", "id": "pjt", "template": "{{ query }} | ns={{ pipeline.vars.backend_ns }} keys={{ pipeline.vars.keys() | sort | join(',') }}"}],
+     "fin": [{"type": "template", "template": "{{ queries | join(' ;; ') }} ## ix={{ pipeline.vars.backend_index }} n={{ pipeline.vars | length }}"}]},
+]
+def readers_check(tier, seed):
+    from vlib import core
+    from vlib.core import Problem
+    rng = random.Random(f"{seed}:C15:readers")
+    cases = []
+    for d in range(len(READER_PDEFS)):
+        for cls in (0, 1, 4, 5, 6):
+            for oa, ob in ((OPTIONS[1], {}), ({}, OPTIONS[1]), (OPTIONS[2], OPTIONS[3]), (OPTIONS[1], OPTIONS[2]), ({}, {})):
+                for ua, ub in ((0, 1), (0, 0), (None, 0), (0, None)):
+                    for mode in range(4):
+                        r1, r2 = rng.choice([R_IDX, R_WIN, R_BK]), rng.choice([R_IDX, R_WIN, R_LIN, R_VARS])
+                        ops = [["new", cls, ua, False, oa], ["rule", 0, r1, 2] if mode != 3 else ["coll", 0, [r1], 0],
+                               ["new", cls, ub, mode == 2, ob]]
+                        if mode == 0: ops.append(["rule", 1, r2, 2])
+                        elif mode == 1: ops += [["coll", 1, [r2], 2], ["rule", 0, r2, 2]]
+                        else: ops.append(["coll", 1, [R_IDX, r2], 2 if mode == 2 else 0])
+                        cases.append({"classes": CLASSES, "pdefs": READER_PDEFS, "users": [d, d, (d + 1) % len(READER_PDEFS)], "ops": ops})
+    if tier == "quick":
+        cases = cases[:8] + rng.sample(cases, 220)
+    res = core.run_impl("C15", "run_history", cases)
+    problems, known, nontriv, strata = [], 0, [], {}
+    for c, r in zip(cases, res):
+        owns, fmt = classify(c)
+        if not (owns and fmt):
+            known += 1       # D18 / D30 input classes: outside the claim
+            continue
+        if "exc" in r:
+            problems.append(Problem("internal", "readers", c, {"impl": r})); continue
+        a, f = r["outs"][-1], r["fresh"]
+        same = (a["r"], a.get("errs"), a.get("snap")) == (f["r"], f.get("errs"), f.get("snap"))
+        key = a["r"][0]
+        strata[key] = strata.get(key, 0) + 1
+        if not same or not a["int"]["tpl_ok"]:
+            problems.append(Problem("violation", "readers", c, {"impl": r, "why": "probe after the history differs from the probe in a fresh setup"}))
+        nontriv.append("readers:" + json.dumps(c["ops"], sort_keys=True) + str(c["users"]))
+    return {"name": "readers", "problems": problems, "evaluations": len(cases), "nontrivial_keys": nontriv,
+            "stats": {"cases": len(cases), "outside_claim_D18_D30": known, "results": strata},
+            "samples": [{"suite": "readers", "case": {"users": cases[0]["users"], "ops": cases[0]["ops"]}, "impl": res[0]}]}
+
 def registry_check(tier, seed):
     """sigma/pipelines/base.py keeps instances on classes: whatever was defined before, every @Pipeline-decorated
     function and every Pipeline subclass must yield its own pipeline (specification evaluated directly; no Coq model)"""
@@ -467,16 +568,19 @@ PROPERTY = Property(
     pid="C15", props_file="Props/C15.v",
     suites=[Suite("history", gen_history, "run_history", REQ, "judge_history", history_to_coq,
                   known=known_history, mutate=mutate_history, stratum=stratum, shard=150)],
-    extra_checks=[registry_check],
-    rule="operation histories over {load (valid / invalid document), new backend (4 classes: plain, not-equals mode, with class-level "
-         "backend+format pipelines, not-equals with format pipelines; user pipeline object shared or not; collect_errors), init pipeline, "
+    extra_checks=[registry_check, readers_check],
+    rule="operation histories over {load (valid / invalid document), new backend (7 classes: plain, not-equals mode, with class-level "
+         "backend+format pipelines, not-equals with format pipelines, class-level pipelines with vars but no items, with a class-level "
+         "value_placeholders reader and no / some vars; user pipeline object shared or not; collect_errors; backend options), init pipeline, "
          "convert collection, convert rule} x 3 output formats x 6 pipeline definitions (state, state conditions, chained field mappings, "
          "rule failure) + 13 pipeline definitions with file_placeholders items over 14 external sources (plaintext / csv / json / yaml files "
          "in a temp dir: working, empty, filtered; failing at security check, fetch, csv column lookup, JSON / YAML decoding, jq expression, "
          "non-scalar jq result after good values); rules share condition strings, detection names, field names and `fields` lists; failing "
          "conversions at load, pipeline (rule_failure, external source), parse, pipe syntax, undefined identifier, rendering (placeholder), "
          "rendering inside a negated not-equals leaf (placeholder error and backend NotImplementedError); 'failing conversion then probe' for "
-         "every pipeline definition x failing rule x probe, on the same and on another backend sharing the pipeline object. Exhaustive: all histories of <= 1 (quick) / <= 2 "
+         "every pipeline definition x failing rule x probe, on the same and on another backend sharing the pipeline object; 5 pipeline definitions "
+         "with vars and value_placeholders readers x option histories (backend with options then a backend without, reverse, different options; "
+         "own / shared / no user pipeline object; probe by convert_rule, after a later init of the other backend, by convert). Exhaustive: all histories of <= 1 (quick) / <= 2 "
          "(thorough) operations from a 17-operation alphabet after two backend creations in 3 sharing setups x all 14 probes (6 of them at length 2), sampled at the next "
          "length (70 / 400 histories x 2 probes per setup); 400 / 6000 random histories of 2..8 operations incl. collections with a filter document. The last operation is the probe; oracle = same probe with new class objects, new "
          "pipeline objects from the same YAML and cleared caches. non-trivial = probe is a conversion preceded by at least one "
